@@ -26,10 +26,10 @@ RULE = ('cases = client connections through the real HttpProtocolHandler+HttpPro
         'not at all, later requests fed after the previous response completed; --disable-headers and --basic-auth configured in '
         'part of the runs; a boundary stream (bodies around the 128 KiB re-chunking size), a stream of requests outside the '
         'domain (CONNECT, origin-form, bad credentials, connect failure, Transfer-Encoding lists, duplicated framing fields, '
-        'damaged bytes) for the correspondence only.  Each connection yields: FConn (model vs implementation, byte for byte, '
-        'plus the cumulative count of forwarded bytes after every piece), FDom (abstract request inside wf_request, rendered to '
-        'exactly the bytes sent, theorem-side expectation == harness expectation), FRef (reference parser of Net/Forward.v vs h11 '
-        'on every forwarded request).  non-trivial = at least one request was forwarded and parsed back by h11; distinct = '
+        'damaged bytes, several requests packed into one segment) for the correspondence only.  Each connection yields one FConn term: the requests (abstract syntax, rendered inside Coq) with one or more '
+        'segmentations; model vs implementation byte for byte plus the cumulative count of forwarded bytes after every piece; abstract '
+        'requests inside wf_request, theorem-side expectation == harness expectation, reference parser of Net/Forward.v on every forwarded '
+        'request == that expectation (== h11, by the oracle); FRef: reference parser vs h11 on forwarded bytes of requests outside the grammar.  non-trivial = at least one request was forwarded and parsed back by h11; distinct = '
         'distinct (configuration, pieces)')
 TRUSTED = ['the abstract request grammar of Net/Forward.v (wf_request / render_request) as the definition of "well-formed HTTP/1.x proxy request"; '
            'the generator emits the abstract syntax and FDom checks on every run that it renders to the bytes actually sent',
